@@ -52,6 +52,10 @@ pub async fn insert_and_maybe_flush(
 
         let passive_arc = ctx.passive_buffers.add_from(&ctx.memtable).await;
         let flushed_mem = std::mem::replace(&mut ctx.memtable, MemTable::new(capacity));
+        // Entries of the rotated memtable end here in the WAL: continue in a new log file.
+        if let Some(wal) = &ctx.wal {
+            wal.rotate().await;
+        }
 
         debug!(
             target: "sneldb::store",
